@@ -148,10 +148,11 @@ SCENARIOS = {
     "inputs-changed":     dict(stage="verify inputs (after write)", late=True, no_ld=True),
 }
 WMODE_FLAG = {"default": [], "inplace": ["--update-in-place"], "noinplace": ["--no-update-in-place"]}
-PRIORS = ("absent", "older", "unrelated", "readonly")
+PRIORS = ("absent", "older", "unrelated", "readonly")   # + "busy" where a check asks for it
 WMODES = ("default", "inplace", "noinplace")
 
 CTX = {}
+BUSY = {}        # case directory -> process executing the file at the output path
 
 
 def setup_limits():
@@ -333,6 +334,13 @@ def prepare_prior(case, d, out_path):
             f.write(b"This is not an output of any linker.\n" * 300)
         os.chmod(out_path, 0o644)
         os.utime(out_path, (PAST, PAST))
+    elif prior == "busy":
+        # An executable that is being executed right now (opening it for writing gives ETXTBSY).
+        shutil.copyfile(shutil.which("sleep"), out_path)
+        os.chmod(out_path, 0o755)
+        os.utime(out_path, (PAST, PAST))
+        BUSY[d] = subprocess.Popen([out_path, "3600"], stdin=subprocess.DEVNULL,
+                                   stdout=subprocess.DEVNULL, stderr=subprocess.DEVNULL)
     else:
         raise ValueError(prior)
     if unpriv:
@@ -370,6 +378,10 @@ def run_case(case):
     try:
         return _run_case_in(case, d)
     finally:
+        holder = BUSY.pop(d, None)
+        if holder is not None:
+            holder.kill()
+            holder.wait()
         # rodir may be 0555 and owned by another uid; we are root, rmtree copes.
         shutil.rmtree(d, ignore_errors=True)
 
@@ -732,6 +744,8 @@ def replay_record(case, res, observed, expected):
                 "readonly": "prior_file_b64 at the output path, mode 0444, mtime 2001-01-01, "
                             "directory and file owned by the unprivileged uid",
                 "unrelated": "300 lines of text at the output path, mode 0644, mtime 2001-01-01",
+                "busy": "a copy of `sleep` at the output path, mode 0755, mtime 2001-01-01, being "
+                        "executed (`<out> 3600 &`) while wild runs",
                 "dir": "a directory at the output path"}[case["prior"]],
             "prior_file_b64": (base64.b64encode(CTX["progs"][case["prog"]]["older"]).decode()
                                if case["prior"] in ("older", "readonly") else None),
